@@ -3,6 +3,7 @@
    slicing, reshape, output reductions with axis/keepdims, Lambda, matmul *)
 EXTENDS LensCommon
 Red1(n, axis, keep) == [n |-> n, p |-> <<axis, keep>>]
+Red2(n, ax1, ax2, keep) == [n |-> n, p |-> <<ax1, ax2, keep>>]
 Stat1(n, axis, keep, ddof) == [n |-> n, p |-> <<axis, keep, ddof>>]
 IntP(i) == [k |-> "int", i |-> i]
 SlcP(start, step, n) == [k |-> "slice", start |-> start, step |-> step, n |-> n]
@@ -27,6 +28,7 @@ L_UnOps == <<
   [n |-> "getslice", p |-> <<SlcP(0, 2, 2)>>],
   [n |-> "getslice", p |-> <<SlcP(1, 1, 1), IntP(0)>>],
   [n |-> "getslice", p |-> <<IntP(0), SlcP(1, 1, 2)>>],
+  Red2("sum2", 0, -1, 0), Red2("amax2", -1, 0, 0), Red2("sum2", 1, 0, 1),
   Stat1("mean", NoAxis, 0, 0), Stat1("mean", -1, 1, 0), Stat1("var", NoAxis, 0, 0), Stat1("var", 0, 0, 1),
   Stat1("var", -1, 1, 0), Stat1("std", NoAxis, 0, 0), Stat1("std", 0, 1, 0),
   Op0("log") >>
